@@ -7,7 +7,8 @@ CHECKS = {
    note=TRUSTED + ' Shapes outside the enumerated boxes are not explored. NaN inputs excluded for complex (libstdc++ fallback).'),
 }
 
-def _c(cat, ref, tech, text, note=TRUSTED, engine='irflow'):
+def _c(cat, ref, tech, text, note=None, engine='irflow'):
+    note = note or TRUSTED
     return dict(category=cat, design_ref=ref, technique=tech, text=text, note=note, engine=engine)
 
 IRF = 'abstract interpretation of clang-emitted LLVM IR (irflow): '
@@ -41,6 +42,18 @@ CHECKS.update({
    'Index tensors are constant sidecar cells (one compiled function, one interpretation per index vector, exhaustive for short vectors over small parents); masks are symbolic data so one interpretation covers all 2^n masks: A(mask) op= rhs leaves cell p as select(m_p, op(A_p,r_p), A_p).'),
  'C20': _c('proof', 'DESIGN.md §5 C20', IRF + 'whole-buffer comparison of TensorMap operations on alignof(T)-aligned raw regions; alias sequences through reshape/flatten/squeeze; copy-flow maps for layout conversion and constructors',
    'Operations through TensorMap over a raw buffer leave exactly the state plain loops leave, with no alignment-requiring access (all misalignments at once); reshape/flatten/squeeze alias the source storage; tocolumnmajor/torowmajor round trips are the identity and constructors store row-major. Known finding F21: the two conversion functions implement each other\'s documented map.'),
+})
+
+_LA_NOTE = TRUSTED + ' Decides the exact-arithmetic (real-number) clause only: the floating-point residual bounds of the property (c*n*eps*cond(A) ...) quantify over runtime conditioning and are NOT decided by any static argument in reach; an algebraically right but numerically poor formulation is not detected. Pivot searches are data-dependent and not analysed.'
+CHECKS.update({
+ 'C10': _c('other', 'DESIGN.md §5 C10, §6', IRF + 'inputs parametrised as A = L(lam) D(del) U(mu); A*X - I and X*A - I must normalise to the zero Laurent polynomial',
+   'For SimpleInv, BlockLU and SimpleLU inversion, sizes 1..7 with the full parametrisation (every matrix with non-singular leading blocks) and up to 17 (thorough 33) with bidiagonal factors, the interpreted inverse is shown to satisfy A*X = X*A = I identically in exact arithmetic; triangular inverses likewise; plus write coverage, footprint, alignment, allocation and dependence on every input element.', note=_LA_NOTE),
+ 'C11': _c('other', 'DESIGN.md §5 C11, §6', IRF + 'uniqueness of LU on A = L(lam) D(del) U(mu): returned factors must normalise to lam and del*mu cell by cell; exact structural constants on plain input',
+   'For BlockLU and SimpleLU, L and U are shown to be exactly the factors of the parametrised input (hence L*U = A, unit lower / upper triangular) in exact arithmetic for n <= 9 fully and to 33 banded; on plain symbolic input the opposite triangles are the literal constant 0, the diagonal of L is 1 and the dependence sets contain the minor-based sets.', note=_LA_NOTE),
+ 'C12': _c('other', 'DESIGN.md §5 C12, §6', IRF + 'right-hand side parametrised as b = A*x0 with symbolic x0; solve must normalise to x0; column separability on plain input',
+   'For the three unpivoted strategies, vector and multi-column right-hand sides, and the substitution helpers, the interpreted solution is shown to equal the symbolic solution x0 identically in exact arithmetic; column j of X mentions only column j of B.', note=_LA_NOTE),
+ 'C13': _c('other', 'DESIGN.md §5 C13, §6', IRF + 'families A = Q0*R0 with constant rational orthogonal Q0 and symbolic upper-triangular R0 (positive diagonal): uniqueness of QR gives Q == Q0, R == R0',
+   'For modified Gram-Schmidt QR on each family (identity, Hadamard, Pythagorean rotations, block and Kronecker combinations, n <= 8 quick / 12 thorough) Q and R are shown to be exactly Q0 and R0 in exact arithmetic, determinant<QR> the product of the diagonal; on plain input R is exactly zero below the diagonal and Gram-Schmidt causality holds. Universal over R0 for each Q0, not over all matrices.', note=_LA_NOTE),
 })
 
 NOT_BUILT = 'check not built yet (build in progress; see DESIGN.md §10)'
